@@ -120,8 +120,11 @@ func (f *RequiredField) DoRead(r io.ReadSeeker, pg Page) (io.Reader, []int, erro
 	var nRead int
 	var out []byte
 	var sizes []int
-	for nRead < pg.N {
-		ph, err := PageHeader(r)
+	// a chunk ends when all of its values and all of its bytes have been
+	// read: the last pages of a chunk may hold no values
+	rc := &readCounter{r: r}
+	for nRead < pg.N || int(rc.n) < pg.Size {
+		ph, err := PageHeader(rc)
 		if err != nil {
 			return nil, nil, err
 		}
@@ -132,7 +135,7 @@ func (f *RequiredField) DoRead(r io.ReadSeeker, pg Page) (io.Reader, []int, erro
 
 		sizes = append(sizes, int(ph.DataPageHeader.NumValues))
 
-		data, err := pageData(r, ph, pg)
+		data, err := pageData(rc, ph, pg)
 		if err != nil {
 			return nil, nil, err
 		}
